@@ -151,7 +151,11 @@ func c19(x *explore.X, pr c19params) {
 	}
 	l := newLink(pr.Carrier)
 	if pr.Block {
-		l.tcp.Block = true
+		if l.tcp != nil {
+			l.tcp.Block = true
+		} else {
+			l.ws.Block = true
+		}
 	}
 	l.conn.SetMaxWriteDelay(time.Duration(pr.Delay) * time.Millisecond)
 	l.conn.SetReadTimeout(30 * time.Second)
@@ -195,7 +199,13 @@ func c19(x *explore.X, pr c19params) {
 	l.feed(enc(in1))
 	l.feed(enc(in2))
 	if fault == "read-timeout" {
-		go func() { l.tcp.ExpireReadDeadline() }()
+		go func() {
+			if l.tcp != nil {
+				l.tcp.ExpireReadDeadline()
+			} else {
+				l.ws.ExpireReadDeadline()
+			}
+		}()
 	}
 
 	var recs []*sendRec
@@ -393,6 +403,7 @@ func runC19(r *report.Report) {
 		{"ws-2senders-faults-nocloser", c19params{Carrier: "ws", Senders: 2, Delay: 10, Faults: true}, b - 1},
 		{"tcp-2senders-closer-redelay", c19params{Carrier: "tcp", Senders: 2, Delay: 10, Closer: true, Redelay: true}, b - 1},
 		{"tcp-backpressure-receive-fails", c19params{Carrier: "tcp", Senders: 2, Delay: 10, Block: true}, b},
+		{"ws-backpressure-receive-fails", c19params{Carrier: "ws", Senders: 2, Delay: 10, Block: true}, b - 1},
 		{"ws-2senders-closer", c19params{Carrier: "ws", Senders: 2, Delay: 10, Closer: true}, b},
 		{"ws-2senders-faults", c19params{Carrier: "ws", Senders: 2, Delay: 10, Faults: true, Closer: true}, b - 1},
 	}
